@@ -745,6 +745,97 @@ func expiredThenRewritten(r *Run, variant int, prop string) {
 	r.Distinct(fmt.Sprintf("expired-then-rewritten/M%d/v%d", M, variant%6))
 }
 
+// c02LoadingPaths: entries that come in through the loader are accounted like any other: (a) loads whose caller's
+// context is cancelled or past its deadline by the time the loader returns (the loader itself cancels it); (b) a
+// reload that overwrites an entry whose deadline has passed but which has not been reclaimed yet; (c) loads of keys
+// being Set / Deleted by others. Both builder routes to a loading cache, then the quiescent invariant.
+func c02LoadingPaths(r *Run, idx int) {
+	rng := r.Rng(int64(26000 + idx))
+	M := []int64{20, 100}[idx%2]
+	type ck struct{}
+	var loadTTL atomic.Int64
+	a, err := newAnyCache("loading", anyOpts{MaxSize: M, Loader: func(ctx context.Context, k int) (theine.Loaded[int64], error) {
+		if cancel, ok := ctx.Value(ck{}).(context.CancelFunc); ok {
+			cancel() // the caller gave up while the load was running; the load itself succeeds
+		}
+		return theine.Loaded[int64]{Value: int64(k) + 1, Cost: int64(1 + k%3), TTL: time.Duration(loadTTL.Load())}, nil
+	}})
+	if err != nil {
+		r.Broken("build: %v", err)
+		return
+	}
+	defer a.store().Close()
+	st := a.store()
+	desc := fmt.Sprintf("loading cache (%s), MaxSize %d", a.route, M)
+	check := func(stage string) {
+		a.wait()
+		sn := st.VerifSnapshot()
+		seen := map[string]bool{}
+		for _, is := range checkQuiescent(sn, st.EstimatedSize(), true) {
+			if !seen[is.Key] {
+				seen[is.Key] = true
+				r.Violate(is.Key+"/"+stage, fmt.Sprintf("%s; %s: %s", desc, stage, is.What), map[string]any{"round": idx, "stage": stage, "snapshot": snapSummary(sn)})
+			}
+		}
+	}
+	// (a) loads that outlive their caller's context
+	n := int(M) * 3
+	for k := 0; k < n; k++ {
+		ctx, cancel := context.WithCancel(context.Background())
+		if k%2 == 0 {
+			ctx = context.WithValue(ctx, ck{}, cancel)
+		}
+		_, _, _ = a.get(ctx, k)
+		cancel()
+	}
+	check("after-loads-whose-callers-context-ended-during-the-load")
+	// (b) reload over an expired, unreclaimed entry
+	loadTTL.Store(int64(2 * time.Second))
+	base := 10_000
+	m := 3 + rng.Intn(5)
+	for k := 0; k < m; k++ {
+		_, _, _ = a.get(context.Background(), base+k)
+	}
+	a.wait()
+	st.VerifShiftClock(10*time.Second, true)
+	st.VerifRefreshClock()
+	loadTTL.Store(int64([]time.Duration{0, time.Hour}[rng.Intn(2)]))
+	for k := 0; k < m; k++ {
+		_, _, _ = a.get(context.Background(), base+k)
+	}
+	check("after-a-reload-over-an-expired-unreclaimed-entry")
+	for k := 0; k < m; k++ {
+		_ = a.del(base + k)
+	}
+	check("after-deleting-the-reloaded-entries")
+	// (c) loads racing Sets and Deletes of the same keys
+	loadTTL.Store(0)
+	var wg sync.WaitGroup
+	for g := 0; g < 4; g++ {
+		wr := rand.New(rand.NewSource(rng.Int63()))
+		wg.Add(1)
+		go func(g int) {
+			defer wg.Done()
+			for i := 0; i < 500; i++ {
+				k := 20_000 + wr.Intn(int(M))
+				switch wr.Intn(4) {
+				case 0:
+					a.set(k, int64(i), int64(1+wr.Intn(3)), 0)
+				case 1:
+					_ = a.del(k)
+				default:
+					_, _, _ = a.get(context.Background(), k)
+				}
+			}
+		}(g)
+	}
+	wg.Wait()
+	check("after-loads-racing-sets-and-deletes")
+	r.Eval(1)
+	r.Count("loading_path_rounds", 1)
+	r.Distinct(fmt.Sprintf("loading-paths/%s/M%d", a.route, M))
+}
+
 // c02Tiers: the accounting half of the property on hybrid / hybrid-loading caches whose secondary store is slow
 // and fails: Sets, Deletes and Gets by a few goroutines, with bursts that overflow the bounded hand-off queue while
 // the workers are held inside the store, and 0-30% of the store's calls (Set, Get and Delete alike) failing. At
@@ -895,7 +986,10 @@ func c02Tiers(r *Run, idx int) {
 // different MaxSize that is already in use - holding entries under other keys and under some of the snapshot's
 // own keys - and the quiescent invariant must hold afterwards (resident cost == EstimatedSize <= MaxSize, every
 // resident entry tracked exactly once, nothing tracked that is not resident).
-func c02BulkLoad(r *Run, idx int) {
+func c02BulkLoad(r *Run, idx int) { bulkLoad(r, idx, "C02") }
+
+// bulkLoad also serves C16, which judges only the public views (Len, Range) against what is resident.
+func bulkLoad(r *Run, idx int, prop string) {
 	rng := r.Rng(int64(28000 + idx))
 	kind := anyKinds[idx%len(anyKinds)]
 	srcM := []int64{20, 100, 400}[rng.Intn(3)]
@@ -959,6 +1053,9 @@ func c02BulkLoad(r *Run, idx int) {
 	issues := checkQuiescent(sn, st.EstimatedSize(), true)
 	seen := map[string]bool{}
 	ov := []string{"disjoint-keys", "some-keys-in-common", "same-keys"}[overlap]
+	if prop != "C02" {
+		issues = nil
+	}
 	for _, is := range issues {
 		if seen[is.Key] {
 			continue
@@ -970,6 +1067,17 @@ func c02BulkLoad(r *Run, idx int) {
 		}
 		r.Violate(key, fmt.Sprintf("bulk-load round %d (%s): snapshot of a MaxSize-%d cache loaded into a MaxSize-%d cache holding %d entries (%s): %s", idx, kind, srcM, dstM, fill, ov, is.What),
 			map[string]any{"round": idx, "cache": kind, "source_maxsize": srcM, "target_maxsize": dstM, "target_entries_before": fill, "keys": ov, "snapshot": snapSummary(sn)})
+	}
+	// the public views of the loaded cache agree with what is resident
+	nRange := 0
+	dst.rangeAll(func(int, int64) bool { nRange++; return true })
+	if l := dst.length(); l != len(sn.Map) || nRange != len(sn.Map) {
+		key := "len-or-range-differs-from-resident/after-loadcache-into-a-cache-in-use"
+		if overlap > 0 {
+			key += "/keys-in-common"
+		}
+		r.Violate(key, fmt.Sprintf("bulk-load round %d (%s): snapshot of a MaxSize-%d cache loaded into a MaxSize-%d cache holding %d entries (%s): %d entries are resident, Len() = %d, Range visited %d", idx, kind, srcM, dstM, fill, ov, len(sn.Map), l, nRange),
+			map[string]any{"round": idx, "cache": kind, "keys": ov})
 	}
 	r.Eval(1)
 	r.Count("bulk_load_rounds", 1)
@@ -1027,6 +1135,9 @@ func runC02(r *Run) {
 	}
 	for i := 0; i < r.Pick(6, 60); i++ {
 		c02ExpiredThenRewritten(r, r.Shard*6+i)
+	}
+	for i := 0; i < r.Pick(4, 40); i++ {
+		c02LoadingPaths(r, r.Shard*4+i)
 	}
 	nT := r.Pick(6, 120)
 	for i := 0; i < nT; i++ {
